@@ -260,6 +260,7 @@ func specSizeOK(size int, lower int, upper int) bool {
 //@   rac_ensures len(errors) == 0 ==> racFixedPoint(messages)
 //@   rac_ensures racDiagnosticsOK(input, errors) && racDiagnosticsOK(input, warnings)
 //@   rac_ensures racPrintedFormsReparse()
+//@   rac_ensures racLoneEllipsisKeepsName()
 //@   loop 1
 //@     invariant fresh(p) && fresh(p.messages)
 //@   loop 2
@@ -562,4 +563,16 @@ func racMessagePool() []*ast.DataMessage {
 		}
 	}
 	return msgs
+}
+
+// racLoneEllipsisKeepsName: the one message shape on which print->parse is known to change the variable list
+// (known_findings.txt): a tree whose only ellipsis is called "..." (the name the ast package itself gives to a single
+// remaining ellipsis) prints as "..." and re-parses with that variable called "...[0]".
+func racLoneEllipsisKeepsName() bool {
+	m := ast.NewDataMessage("m", 1, 1, 1, "H->E", ast.NewListNode(ast.NewUintNode(1, "av"), "..."))
+	again, errs, warns := Parse(m.String())
+	if len(errs) != 0 || len(warns) != 0 || len(again) != 1 || again[0].String() != m.String() {
+		return false
+	}
+	return fmt.Sprint(again[0].Variables()) == fmt.Sprint(m.Variables())
 }
